@@ -121,6 +121,11 @@ class ArrayAttr(Attribute):
         return isinstance(other, ArrayAttr) and self.data == other.data
 
 
+class DictionaryAttr(Data):
+    def __init__(self, data=None):
+        self.data = dict(data) if data is not None else {}
+
+
 class DenseArrayBase(Attribute):
     def __init__(self, data=(), elt_type=None):
         self.data = tuple(data)
